@@ -275,6 +275,9 @@ func vC24FromStream(t *testing.T, out *vOut, r *vRand, n int) map[string]int {
 				if tr.perFrm && r.Intn(4) != 0 {
 					frames = 2 + r.Intn(4)
 				}
+				if tr.kind == "TsKLV" || tr.kind == "TsLATM" {
+					frames = 1 // one KLV unit / one audioMuxElement per unit
+				}
 				pl := tr.mk(r, frames)
 				pesN := 1
 				if tr.perFrm {
